@@ -18,6 +18,8 @@ PLAN = {
         {"template": "writer.verus.rs", "tier": "quick", "rlimit": 250, "min_functions": 36},
     ],
     "witnesses": [
+        {"match": r"fn write_metric_trailer", "src": "witness_trailer.rs", "crate": "metrics-exporter-dogstatsd",
+         "file": "metrics-exporter-dogstatsd/src/writer.rs"},
         {"match": r"(Payloads|payloads|verif_flush_cycle|verif_drain)", "src": "witness_flush_cycle.rs", "crate": "metrics-exporter-dogstatsd",
          "file": "metrics-exporter-dogstatsd/src/writer.rs"},
         {"match": r"fn commit/ensures:final\(self\)\.(wf|tail)", "src": "witness_commit_fail.rs", "crate": "metrics-exporter-dogstatsd",
